@@ -82,7 +82,7 @@ def main():
         if pid in CHECKS and os.path.isdir('/verif/checks/' + pid.lower()):
             eng, tech, text, note, ref = CHECKS[pid]
             if pid not in ("C19", "C20"):
-                tech += "; call histories of depth 2 (and, C17, to the fix-point) explored from the library's initial state (state reset injected with go build -overlay), with the differential oracle 'outcome independent of the earlier call'"
+                tech += "; call histories of depth 2 and 3 (C17: to the fix-point) explored from the library's initial state (state reset injected with go build -overlay), with the differential oracle 'outcome independent of the earlier call'"
             if pid == "C19":
                 tech = "stateless model checking: controlled cooperative scheduler (sync, sync/atomic, math/rand, math/rand/v2, crypto/rand of package uu redirected to shims with go build -overlay), iterative context bounding over all harnesses (preemption bound 0, 1, 2, ... then unbounded) x scripted generator answers; free-running -race runs as a supplement"
             checks.append({
